@@ -266,6 +266,23 @@ def c02(tier, rng):
                                  hprog, n, n if hprog != 'afterEOF' else 2, ser=bool(n % 3))
                 sc_['cap'] = cap
                 out.append(sc_)
+    # a handler that returns (successfully) before it has read everything, beside a live stream: the
+    # live stream keeps its order and completeness, the early one ends with the handler's result
+    for kind in ('bidi', 'cs'):
+        for nsent, nread in ([(3, 1), (4, 0)] if tier == 'quick' else [(3, 1), (4, 0), (5, 2), (8, 1)]):
+            b = B('C02', 'early successful return of a %s handler after %d of %d, beside a live echo stream' % (kind, nread, nsent), ser=bool(nsent % 2))
+            b.step('sopen', c=1, kind='bidi', hp=[dict(o='echo')])
+            b.step('send', c=1, pay='a0').step('recv', c=1)
+            b.step('sopen', c=2, kind=kind, hp=[dict(o='recv')] * nread + [ret()])
+            for i in range(nsent):
+                b.step('send', c=2, pay='b%d' % i)
+            b.q()
+            b.step('send', c=1, pay='a1').step('recv', c=1)
+            b.step('recv', c=2, n=2)
+            b.step('send', c=1, pay='a2').step('recv', c=1)
+            b.step('close', c=1).step('recv', c=1)
+            b.step('trl', c=1)
+            out.append(b.q().done())
     # several streams multiplexed on one connection
     for k in ([2, 5] if tier == 'quick' else [2, 3, 8, 16, 32]):
         for rep in range(2 if tier == 'quick' else 6):
